@@ -142,7 +142,67 @@ def cases_prepare(tier, rng):
                    "lost": lost}
 
 
+def run_select(S, case):
+    """Post-condition of `_get_jobs_to_resubmit` (names selected by the flags), evaluated on the real function over a real Cluster
+    and a real results.json: independent oracle straight from the rows written to the file."""
+    import json
+    from jade.cli.resubmit_jobs import _get_jobs_to_resubmit
+    from jade.common import RESULTS_FILE
+    from jade.result import Result, ResultsSummary, serialize_results
+    rng = random.Random(case["seed"])
+    cfg, deps, listing = make_config(rng, case["n"], case["order"])
+    d = tempfile.mkdtemp(prefix="verif-rs-")
+    try:
+        c = Cluster.create(d, cfg)
+        rows, kinds = [], {}
+        fin, can = JobCompletionStatus.FINISHED.value, JobCompletionStatus.CANCELED.value
+        for x in listing:
+            k = rng.choice(["successful", "failed", "canceled", "missing", "failed-signal"])
+            kinds[x] = k
+            if k == "successful":
+                rows.append(Result(x, 0, fin, 1.0, hpc_job_id=rng.choice([None, "7"])))
+            elif k == "failed":
+                rows.append(Result(x, rng.choice([1, 2, 127]), fin, 1.0))
+            elif k == "failed-signal":
+                rows.append(Result(x, -9, fin, 1.0))
+            elif k == "canceled":
+                rows.append(Result(x, 1, can, 0.0))
+        rng.shuffle(rows)
+        with open(os.path.join(d, RESULTS_FILE), "w") as f:
+            json.dump({"jade_version": "x", "timestamp": "t", "base_directory": d, "results": serialize_results(rows),
+                       "missing_jobs": [x for x in listing if kinds[x] == "missing"]}, f)
+        failed_clauses = []
+        n = 0
+        for failed in (False, True):
+            for missing in (False, True):
+                for successful in (False, True):
+                    got = _get_jobs_to_resubmit(c, d, failed, missing, successful)
+                    want = {x for x in listing if (failed and kinds[x] in ("failed", "failed-signal", "canceled"))
+                            or (successful and kinds[x] == "successful") or (missing and kinds[x] == "missing")}
+                    n += 1
+                    if got != want:
+                        failed_clauses.append(f"flags failed={failed} missing={missing} successful={successful}: selected {sorted(got)}, "
+                                              f"expected {sorted(want)} (rows: {kinds})")
+        # building blocks: classification by type and missing jobs
+        rs = ResultsSummary(d)
+        by = rs.get_results_by_type()
+        for key, ks in (("successful", ("successful",)), ("failed", ("failed", "failed-signal")), ("canceled", ("canceled",))):
+            if sorted(r.name for r in by[key]) != sorted(x for x in listing if kinds[x] in ks):
+                failed_clauses.append(f"get_results_by_type()[{key!r}] = {sorted(r.name for r in by[key])} (rows: {kinds})")
+        if [j.name for j in rs.get_missing_jobs(c.iter_jobs())] != [j.name for j in c.iter_jobs() if kinds[j.name] == "missing"]:
+            failed_clauses.append("get_missing_jobs: not the configured jobs without a row, in configuration order")
+        return {"pre_ok": True, "ok": not failed_clauses, "failed": failed_clauses}
+    finally:
+        shutil.rmtree(d, ignore_errors=True)
+
+
+def cases_select(tier, rng):
+    for i in range(40 if tier == "quick" else 600):
+        yield {"seed": rng.randint(0, 10**9), "n": rng.randint(1, 7), "order": ("forward", "reversed", "shuffled")[i % 3]}
+
+
 HARNESSES = {
+    "_get_jobs_to_resubmit": (cases_select, run_select),
     "_update_with_blocking_jobs": (cases_closure, run_closure),
     "Cluster.prepare_for_resubmission": (cases_prepare, run_prepare),
 }
